@@ -214,18 +214,19 @@ Definition op_add_node (w : world) (ti p sti src : nat) (explicit : option did) 
         if dp && (match explicit with Some _ => true | None => false end) then (Err EValue, w)
         else if Nat.eqb ti sti && (match parent_of src (forest_of st) with Some q => Nat.eqb q p | None => false end)
         then (Err EUnique, w)
-        else if (match explicit with Some e => did_truthy e && negb (did_eqb e (rdid s)) | None => false end)
+        else if (match explicit with Some e => negb (did_eqb e (rdid s)) | None => false end)
         then (Err EUnique, w)
         else if dp && Nat.eqb ti sti && is_desc_or_self src p (forest_of st) then (Err EValue, w)
         else
           let nb := norm_before b in
           if negb (before_ok nb ch) then (Err EValue, w)
+          else if negb (typed t) && typed st then (Err EType, w)   (* TypedNode(data, parent=...) : the constructor call itself fails *)
           else
             let n := next w in
             let id := match explicit with Some e => e | None => rdid s end in
             if collides t p id then (Err EUnique, bump w 1)
             else
-              let knd := if typed t then (match k with Some _ => k | None => rkind s end) else None in
+              let knd := default_kind t k in
               let (kids, n') := if dp then copy_f (typed t) None (S n) (rch s) else ([], S n) in
               let x := T n (I (i_obj (rinfo s)) (i_eqc (rinfo s)) (i_hash (rinfo s)) (i_isstr (rinfo s))
                               (i_name (rinfo s)) id knd []) kids in
@@ -254,19 +255,25 @@ Fixpoint add_nodes (w : world) (ti p sti : nat) (srcs : list nat) (b : before) (
 Definition any_collides (t : tstate) (p : nat) (st : tstate) (srcs : list nat) : bool :=
   existsb (fun s => match did_of s (forest_of st) with Some d => collides t p d | None => false end) srcs.
 
+(* Node._check_copies, second loop: a deep copy of a branch into itself is refused up front *)
+Definition any_into_own_branch (ti sti : nat) (st : tstate) (srcs : list nat) (p : nat) (deep : option bool) : bool :=
+  match deep with
+  | Some true => Nat.eqb ti sti && existsb (fun s => is_desc_or_self s p (forest_of st)) srcs
+  | _ => false
+  end.
+
 Definition op_add_tree (w : world) (ti p sti : nat) (b : before) (deep : option bool) : res * world :=
   match get_tree w ti, get_tree w sti with
   | Some t, Some st =>
-      if Nat.eqb ti sti then (Err EModel, w)
-      else if typed t && negb (typed st) then (Err EType, w)
-      else if negb (typed t) && typed st then (Err EModel, w)   (* isinstance(child, Tree) is false for ... not generated *)
+      if typed t && negb (typed st) then (Err EType, w)
       else
       let tops := map rid (forest_of st) in
       let order := match b with BNone | BFalse => tops | _ => rev tops end in
       let dp := match deep with Some x => Some x | None => Some true end in
       if any_collides t p st tops then (Err EUnique, w)
+      else if any_into_own_branch ti sti st tops p dp then (Err EValue, w)
       else match add_nodes w ti p sti order b dp [] with
-           | (Ok r, w') => (Ok (match rev r with x :: _ => [x] | [] => [] end), w')
+           | (Ok r, w') => (Ok (if typed t then [] else match rev r with x :: _ => [x] | [] => [] end), w')
            | other => other
            end
   | _, _ => (Err EModel, w)
@@ -283,8 +290,10 @@ Definition op_copy_to (w : world) (sti src ti target : nat) (add_self : bool) (b
         | Some [] => (Err EValue, w)
         | Some ch =>
             if any_collides t target st (map rid ch) then (Err EUnique, w)
+            else if any_into_own_branch ti sti st (map rid ch) target (Some deep) then (Err EValue, w)
             else match add_nodes w ti target sti (map rid ch) BNone (Some deep) [] with
-                 | (Ok r, w') => (Ok (match r with x :: _ => [x] | [] => [] end), w')
+                 | (Ok r, w') => (Ok (if Nat.eqb src 0 then [] (* Tree.copy_to returns None *)
+                                      else match r with x :: _ => [x] | [] => [] end), w')
                  | other => other
                  end
         end
@@ -296,9 +305,9 @@ Definition op_tree_copy (w : world) (sti : nat) : res * world :=
   match get_tree w sti with
   | None => (Err EModel, w)
   | Some st =>
-      let (kids, n') := copy_f false None (next w) (forest_of st) in
+      let (kids, n') := copy_f (typed st) None (next w) (forest_of st) in
       let (r', ix') := register_all (pre_f kids) [] [] in
-      (Ok [length (trees w)], W (trees w ++ [TS kids r' ix' false None]) n')
+      (Ok [length (trees w)], W (trees w ++ [TS kids r' ix' (typed st) None]) n')
   end.
 
 (* Node.copy(add_self): a new tree of the same class from a branch *)
@@ -309,7 +318,11 @@ Definition op_node_copy (w : world) (sti src : nat) (add_self : bool) : res * wo
       match get_node src (forest_of st) with
       | None => (Err EModel, w)
       | Some s =>
-          let (kids, n') := copy_f (typed st) None (next w) (if add_self then [s] else rch s) in
+          let (kids0, n') := copy_f (typed st) None (next w) (if add_self then [s] else rch s) in
+          (* new_tree.add(self): the top node of a typed copy gets the default kind *)
+          let kids := if add_self && typed st
+                      then map (fun t => match t with T id i ch => T id (set_kind_i (default_kind st None) i) ch end) kids0
+                      else kids0 in
           let (r', ix') := register_all (pre_f kids) [] [] in
           (Ok [length (trees w)], W (trees w ++ [TS kids r' ix' (typed st) None]) n')
       end
@@ -360,6 +373,7 @@ Definition op_move (w : world) (ti n tti target : nat) (b : before) : res * worl
             if negb (before_ok nb tch) then (Err EValue, w)
             else if negb (Nat.eqb cur target) && existsb (fun c => did_eqb (rdid c) (rdid s)) tch
             then (Err EUnique, w)
+            else if (match nb with NNode s0 => Nat.eqb s0 n | _ => false end) then (Ok [], w)   (* before=self: already there *)
             else match move_in t n target nb with
                  | Some t' => (Ok [], put_tree w ti t')
                  | None => (Err EModel, w)
@@ -391,6 +405,22 @@ Definition keep_collides (t : tstate) (n : nat) : bool :=
   | None => false
   end.
 
+(* Node._check_keep_children: the child list with every victim replaced (recursively) by its children *)
+Fixpoint contract_t (victims : list nat) (t : rt) : list rt :=
+  match t with
+  | T id _ ch => if existsb (Nat.eqb id) victims then flat_map (contract_t victims) ch else [t]
+  end.
+Fixpoint has_dup_did (l : list did) : bool :=
+  match l with
+  | [] => false
+  | d :: l' => existsb (did_eqb d) l' || has_dup_did l'
+  end.
+Definition keep_collides_all (t : tstate) (victims : list nat) (n : nat) : bool :=
+  match node_loc n (forest_of t) with
+  | Some (_, _, l) => has_dup_did (map rdid (flat_map (contract_t victims) l))
+  | None => false
+  end.
+
 Definition remove_one (t : tstate) (n : nat) (keep : bool) : option tstate :=
   if keep then remove_keep t n else remove_branch t n.
 
@@ -405,9 +435,7 @@ Definition op_remove (w : world) (ti n : nat) (keep with_clones : bool) : res * 
       | Some d =>
           let victims := if with_clones then filter (fun c => negb (Nat.eqb c n)) (idx_get d (idx t)) ++ [n] else [n] in
           (* everything is validated before the first node goes *)
-          if keep && typed t && existsb (fun v => match children_of v (forest_of t) with Some (_ :: _) => true | _ => false end) victims
-          then (Err ENotImpl, w)
-          else if keep && existsb (keep_collides t) victims then (Err EUnique, w)
+          if keep && existsb (keep_collides_all t victims) victims then (Err EUnique, w)
           else
             let t' := fold_left (fun acc v => if live acc v
                                               then match remove_one acc v keep with Some a => a | None => acc end
@@ -676,6 +704,166 @@ Definition op_shortcut (w : world) (ti n : nat) (how : shortcut) (d : dat) (expl
       end
   end.
 
+(* ---- clear / del ---- *)
+Definition op_clear (w : world) (ti : nat) : res * world := op_remove_children w ti 0.
+
+(* del tree[key] = tree[key].remove().  Tree.__getitem__: a node_id, else the key itself as data_id
+   if it is an int/str present in the index, else calc_data_id(key) *)
+Inductive delkey :=
+| KNode (n : nat)                           (* tree[node.node_id] *)
+| KDid (e : did) (fallback : option did)    (* an int/str key; fallback = calc_data_id(key), None = the callback raises *)
+| KData (d : dat) (as_did : option did).    (* a data object; as_did = the object itself when it is an int/str *)
+
+Definition getitem (t : tstate) (k : delkey) : option (list nat) :=      (* None: the id callback raised *)
+  match k with
+  | KNode n => Some (if live t n then [n] else [])
+  | KDid e fb => if idx_has e (idx t) then Some (idx_get e (idx t))
+                 else option_map (fun x => idx_get x (idx t)) fb
+  | KData d a =>
+      match a with
+      | Some e => if idx_has e (idx t) then Some (idx_get e (idx t))
+                  else option_map (fun x => idx_get x (idx t)) (calc_id (calc t) d)
+      | None => option_map (fun x => idx_get x (idx t)) (calc_id (calc t) d)
+      end
+  end.
+
+Definition op_del (w : world) (ti : nat) (k : delkey) : res * world :=
+  match get_tree w ti with
+  | None => (Err EModel, w)
+  | Some t =>
+      match getitem t k with
+      | None => (Err ECrash, w)
+      | Some [] => (Err EKey, w)
+      | Some [n] => op_remove w ti n false false
+      | Some _ => (Err EAmbiguous, w)
+      end
+  end.
+
+(* ---- in-place filter (as repaired: D05, D25) ---- *)
+Inductive verdict := VTrue | VFalse | VSkip | VSkipKeep | VSelect | VStop | VRaise.
+Definition verdicts := list (nat * verdict).
+Definition verdict_of (vd : verdicts) (n : nat) : verdict :=
+  match find (fun e => Nat.eqb (fst e) n) vd with Some e => snd e | None => VTrue end.
+
+(* what Node.filter does to the tree, in execution order *)
+Inductive fact := FBranch (n : nat) (* n.remove() *) | FKids (n : nat) (* n.remove_children() *).
+
+(* _visit(t): (must_keep, actions, stopped, predicate raised) *)
+Fixpoint fvisit (vd : verdicts) (t : rt) (stopped : bool) {struct t} : bool * list fact * bool * bool :=
+  match t with
+  | T _ _ ch =>
+      (fix go (l : list rt) (s : bool) (pend : list nat) (must : bool) (acts : list fact) {struct l}
+         : bool * list fact * bool * bool :=
+         match l with
+         | [] => (must, acts ++ map FBranch pend, s, false)
+         | c :: l' =>
+             match (if s then VSkip else verdict_of vd (rid c)) with
+             | VRaise => (must, acts, s, true)
+             | VStop => go l' true (pend ++ [rid c]) must acts
+             | VSkip => go l' s (pend ++ [rid c]) must acts
+             | VSkipKeep => go l' s pend true (acts ++ [FKids (rid c)])
+             | VSelect => go l' s pend true acts
+             | VTrue =>
+                 match fvisit vd c s with
+                 | (_, a, s', true) => (must, acts ++ a, s', true)
+                 | (_, a, s', false) => go l' s' pend true (acts ++ a)
+                 end
+             | VFalse =>
+                 match fvisit vd c s with
+                 | (_, a, s', true) => (must, acts ++ a, s', true)
+                 | (true, a, s', false) => go l' s' pend true (acts ++ a)
+                 | (false, a, s', false) => go l' s' (pend ++ [rid c]) must (acts ++ a)
+                 end
+             end
+         end) ch stopped [] false []
+  end.
+
+Definition dummy_info : info := I 0 0 0 false [] (DInt 0) None [].
+
+Definition remove_kids (t : tstate) (n : nat) : option tstate :=
+  match parent_path n (forest_of t) with
+  | Some pq => match get_ch pq (forest_of t) with
+               | Some ch => let (r', ix') := unregister_all (pre_f ch) (reg t) (idx t) in
+                            Some (set_all t (upd_ch pq (fun _ => []) (forest_of t)) r' ix')
+               | None => None
+               end
+  | None => None
+  end.
+
+Definition apply_fact (t : tstate) (a : fact) : tstate :=
+  match a with
+  | FBranch n => match remove_branch t n with Some t' => t' | None => t end
+  | FKids n => match remove_kids t n with Some t' => t' | None => t end
+  end.
+
+Definition op_filter (w : world) (ti n : nat) (vd : verdicts) : res * world :=
+  match get_tree w ti with
+  | None => (Err EModel, w)
+  | Some t =>
+      match children_of n (forest_of t) with
+      | None => (Err EModel, w)
+      | Some ch =>
+          match fvisit vd (T 0 dummy_info ch) false with
+          | (_, acts, _, failed) =>
+              (if failed then Err ECrash else Ok [], put_tree w ti (fold_left apply_fact acts t))
+          end
+      end
+  end.
+
+(* ---- from_dict ---- *)
+Inductive ditem := DI (d : dat) (e : option did) (ch : list ditem).
+
+Fixpoint from_dict_item (ti p : nat) (it : ditem) (w : world) {struct it} : res * world :=
+  match it with
+  | DI d e ch =>
+      match op_add w ti p d e None BNone with
+      | (Ok [n], w1) =>
+          (fix go (l : list ditem) (w : world) {struct l} : res * world :=
+             match l with
+             | [] => (Ok [], w)
+             | x :: l' => match from_dict_item ti n x w with
+                          | (Ok _, w2) => go l' w2
+                          | err => err
+                          end
+             end) ch w1
+      | (Ok _, w1) => (Err EModel, w1)
+      | (Err x, w1) => (Err x, w1)
+      end
+  end.
+
+Fixpoint from_dict_items (ti p : nat) (l : list ditem) (w : world) : res * world :=
+  match l with
+  | [] => (Ok [], w)
+  | x :: l' => match from_dict_item ti p x w with
+               | (Ok _, w2) => from_dict_items ti p l' w2
+               | err => err
+               end
+  end.
+
+Definition op_from_dict (w : world) (ti p : nat) (items : list ditem) : res * world :=
+  match get_tree w ti with
+  | None => (Err EModel, w)
+  | Some t =>
+      match children_of p (forest_of t) with
+      | None => (Err EModel, w)
+      | Some (_ :: _) => (Err EAssert, w)          (* assert not self._children *)
+      | Some [] =>
+          match from_dict_items ti p items w with
+          | (Ok _, w1) => (Ok [], w1)
+          | (Err e, w1) => (Err e, W (trees w) (next w1))     (* the half-built branch is removed again (fix D48) *)
+          end
+      end
+  end.
+
+(* Tree.from_dict: a new plain tree; when an item is refused the half-built tree is dropped *)
+Definition op_tree_from_dict (w : world) (items : list ditem) : res * world :=
+  let ti := length (trees w) in
+  let w0 := W (trees w ++ [TS [] [] [] false None]) (next w) in
+  match from_dict_items ti 0 items w0 with
+  | (Ok _, w1) => (Ok [ti], w1)
+  | (Err e, w1) => (Err e, W (trees w) (next w1))
+  end.
+
 (* ---- operations and histories ---- *)
 Inductive op :=
 | OAdd (ti p : nat) (d : dat) (explicit : option did) (k : kind) (b : before)
@@ -692,7 +880,12 @@ Inductive op :=
 | OSetData (ti n : nat) (d : option dat) (explicit : option did) (with_clones : option bool)
 | ORename (ti n : nat) (d : dat)
 | OMeta (ti n : nat) (o : metaop)
-| ONewTree (is_typed : bool) (c : calcspec).
+| ONewTree (is_typed : bool) (c : calcspec)
+| OClear (ti : nat)
+| ODel (ti : nat) (k : delkey)
+| OFilter (ti n : nat) (vd : verdicts)
+| OFromDict (ti p : nat) (items : list ditem)
+| OTreeFromDict (items : list ditem).
 
 Definition step (w : world) (o : op) : res * world :=
   match o with
@@ -711,6 +904,11 @@ Definition step (w : world) (o : op) : res * world :=
   | ORename ti n d => op_rename w ti n d
   | OMeta ti n o => op_meta w ti n o
   | ONewTree ty c => (Ok [length (trees w)], W (trees w ++ [TS [] [] [] ty c]) (next w))
+  | OClear ti => op_clear w ti
+  | ODel ti k => op_del w ti k
+  | OFilter ti n vd => op_filter w ti n vd
+  | OFromDict ti p items => op_from_dict w ti p items
+  | OTreeFromDict items => op_tree_from_dict w items
   end.
 
 Definition run (ops : list op) (w : world) : world := fold_left (fun w o => snd (step w o)) ops w.
